@@ -11,8 +11,7 @@ structure ClientFacts (s : St) (ins : List In) : Prop where
   answersE : answers (clientRecv s ins).2 = refAnswers s.inbound (processed ins)
   inbound  : (clientRecv s ins).1.inbound = s.inbound + stanzaCount (processed ins)
   smId     : (clientRecv s ins).1.smId = s.smId
-  disc     : discEvents (clientRecv s ins).2 =
-               (if isClose (stopper ins) then [] else [(s.smId, s.inbound + stanzaCount (processed ins))])
+  disc     : discEvents (clientRecv s ins).2 = [(s.smId, s.inbound + stanzaCount (processed ins))]
   errh     : errhCount (clientRecv s ins).2 =
                serrCount (processed ins) + (if isClose (stopper ins) then 0 else 1)
   quit     : (clientRecv s ins).2.getLast? = some .quitClosed
@@ -60,12 +59,10 @@ private theorem facts_cont (s s' : St) (i : In) (rest : List In) (acts : List Ac
       by_cases hq : isReq i = true <;> simp [hs', hq]
   · rw [hrun, hp, ih.inbound, hin, hcnt]; omega
   · rw [hrun, ih.smId, hsm]
-  · rw [hrun, hst]; simp only [discEvents] at hd ⊢
+  · rw [hrun]; simp only [discEvents] at hd ⊢
     rw [List.filterMap_append, hd, ← discEvents, ih.disc, hsm, hin, hp, hcnt]
     simp only [List.nil_append]
-    split
-    · rfl
-    · simp; omega
+    simp; omega
   · rw [hrun, hst, hp, hser]; simp only [errhCount] at he ⊢
     rw [List.filter_append, List.length_append, he, ← errhCount, ih.errh]
     omega
